@@ -36,6 +36,7 @@ EXPLANATION += (' R-C05-12: the per-point look-up tables of the binned law keep 
 EXPLANATION += (' R-C05-15 (helper shared with the C07 rules): every class search of the binned law the detector evaluates is made with the absolute load itself - no offset, tolerance, rounding or scaling on the search key.')
 EXPLANATION += (' R-C05-16: with per-point look-up tables of the binned law the class of every point is searched in that point\'s own table; a search with the first point\'s load whose result selects the rows of all points is reported (open known finding: four look-up methods).')
 EXPLANATION += (' R-C05-17 (shared with R-C04-10): the representative assessment point is the first stored row everywhere in the detector module (no first-after-sort).')
+EXPLANATION += (' R-C05-18 (shared state-family rules, sa/statefam.py; who-may-write): the private stress / strain / load attributes of an HCM point are assigned only by methods of FKMNonlinearDetector (in which the point class is nested), by the point itself, or on a point created in the same function; the history holds the objects that are still open residuals.')
 ASSUMPTIONS = ["pd.concat([a, b]) appends b after a"]
 
 LISTS = ["_loads_min", "_loads_max", "_S_min", "_S_max", "_epsilon_min", "_epsilon_max", "_epsilon_min_LF",
@@ -43,8 +44,37 @@ LISTS = ["_loads_min", "_loads_max", "_S_min", "_S_max", "_epsilon_min", "_epsil
 
 
 def run(ctx):
-    for r in (_r1, _r2, _r3, _r4, _r5, _r6, _r7, _r8, _r9, _r10, _r11, _r12, _r13, _r14, _r15, _r16, _r17):
+    for r in (_r1, _r2, _r3, _r4, _r5, _r6, _r7, _r8, _r9, _r10, _r11, _r12, _r13, _r14, _r15, _r16, _r17, _r18):
         ctx.attempt(r)
+
+
+def _r18(ctx):
+    """R-C05-18 (state families, sa/statefam.py; who-may-write): the stress / strain / load of an HCM point are assigned only by
+    methods of the detector (the class _HCM_Point is nested in) or on a point object created in the same function.  The points of
+    the recorded history are the very objects that are still open in the residual stack: any other code that assigns their
+    private attributes (a plotting helper reducing them to the first assessment point) changes what the second pass continues
+    from."""
+    from .. import statefam
+    prog = ctx.prog
+    statefam.selftest()
+    ctx.rule("R-C05-18", floor=2, what="_HCM_Point state is assigned only by the detector or on freshly created points")
+    mod = "pylife.stress.rainflow.fkm_nonlinear"
+    owners = {"_HCM_Point": {"_stress", "_strain", "_load"}, "__nested_in__": {"_HCM_Point": "FKMNonlinearDetector"}}
+    hits = statefam.foreign_private_writes(prog, mod, owners)
+    for fi, st, attr, recv in hits:
+        ctx.violated(fi, st, "%s assigns %s.%s: the HCM points of the history are the objects still open in the detector's residual "
+                     "stack, only the detector may change them" % (fi.qualname, recv, attr), text="foreign write of %s in %s" % (attr, fi.qualname))
+    n = 0
+    for key, fi in sorted(prog.functions.items()):
+        if fi.module.name != mod:
+            continue
+        w = [st for st in walk_function(fi.node) if isinstance(st, ast.Assign) and any(
+            isinstance(t, ast.Attribute) and t.attr in owners["_HCM_Point"] for t in st.targets)]
+        if w and not any(h[0] is fi for h in hits):
+            n += 1
+            ctx.holds(fi, w[0], "%s assigns HCM point state as the detector / the point itself / on a fresh point" % fi.qualname)
+    if n == 0:
+        raise AnalysisError("no assignment of HCM point state found")
 
 
 def _strided_sample_reads(fn_node, params):
